@@ -12,6 +12,13 @@ Init == b = 0 /\ i = 0
 Next == \/ b = 0 /\ b' \in 1..NB /\ i' = 0
         \/ b > 0 /\ i = 0 /\ b' = b /\ i' \in {j \in 1..Len(Rec) : j % NB = b - 1}
 
-Inv == i > 0 => (~Relevant(Rec[i]) \/ JudgeEvent(Rec[i]))
+\* a fragment the library types although its opcodes do not exist under the script rules of the
+\* context (CHECKSIGADD outside tapscript, CHECKMULTISIG inside): no execution can leave 0 or 1,
+\* so none of its labels is a true statement about its execution
+Foreign(ev) ==
+  ~ev.have \/ ~HasHardForbidden(ev.ast, ev.ctx)
+  \/ PrintT("VERDICT " \o ToJson(<<"C06", "typed_fragment_cannot_execute_in_context", ev.id, 0, "">>))
+
+Inv == i > 0 => (Foreign(Rec[i]) /\ (~Relevant(Rec[i]) \/ JudgeEvent(Rec[i])))
 Post == PrintT("TRACE_DONE " \o ToJson(<<Len(Rec), TLCGet("stats").distinct>>))
 =============================================================================
